@@ -1,3 +1,738 @@
-pub fn cmd_replay(_a: &[String]) -> i32 { 2 }
-pub fn cmd_run(_a: &[String]) -> i32 { 2 }
-pub fn cmd_drive(_a: &[String]) -> i32 { 2 }
+//! C13: sender `Storage` vs. receiver `Manager` over lossy message and
+//! acknowledgement paths, with the real wire forms in between.
+//!
+//! * `sync-replay`: reads the transition export of spec/snapsync, executes every
+//!   transition on a clone of the real system kept per spec state, compares.
+//! * `sync-run`: executes operational schedules, prints an NDJSON trace.
+//! * `sync-drive`: seeded long lossy random histories (real constants), NDJSON trace.
+use libtw2_gamenet_common::snap_obj::TypeId;
+use libtw2_gamenet_snap as msg;
+use libtw2_packer::with_packer;
+use libtw2_snapshot::manager;
+use libtw2_snapshot::snap::delta_chunks;
+use libtw2_snapshot::storage;
+use libtw2_snapshot::Manager;
+use libtw2_snapshot::Snap;
+use libtw2_snapshot::Storage;
+use serde_json::json;
+use serde_json::Value;
+use std::collections::HashMap;
+use std::io::BufRead;
+use std::io::Write;
+use std::rc::Rc;
+use uuid::Uuid;
+use vh_common::rand::rngs::StdRng;
+use vh_common::rand::Rng;
+use vh_common::rand::SeedableRng;
+
+const CALL_MS: u64 = 20_000;
+
+#[derive(Clone, Debug)]
+pub struct ItemSpec {
+    pub ty: i32,
+    pub id: u16,
+    pub rep: usize,
+    pub d: Vec<i32>,
+}
+
+impl ItemSpec {
+    fn from_json(v: &Value) -> ItemSpec {
+        ItemSpec {
+            ty: v["ty"].as_i64().unwrap() as i32,
+            id: v["id"].as_u64().unwrap() as u16,
+            rep: v["rep"].as_u64().unwrap() as usize,
+            d: v["d"].as_array().unwrap().iter().map(|x| x.as_i64().unwrap() as i32).collect(),
+        }
+    }
+    fn to_json(&self) -> Value {
+        json!({"ty": self.ty, "id": self.id, "rep": self.rep, "d": self.d})
+    }
+    fn real(&self) -> Vec<i32> {
+        let mut v = Vec::with_capacity(self.rep * self.d.len());
+        for &x in &self.d {
+            for _ in 0..self.rep {
+                v.push(x);
+            }
+        }
+        v
+    }
+}
+
+pub fn world_from_json(v: &Value) -> Vec<ItemSpec> {
+    let mut w: Vec<ItemSpec> = v.as_array().unwrap().iter().map(ItemSpec::from_json).collect();
+    sort_world(&mut w);
+    w
+}
+
+/// The order in which the application adds the items: ordinal types first, then
+/// UUID types by ascending type number (the spec's ExtendReg assumes this order).
+fn sort_world(w: &mut Vec<ItemSpec>) {
+    w.sort_by_key(|i| (i.ty < 0, if i.ty < 0 { -i.ty } else { i.ty }, i.id));
+}
+
+fn world_to_json(w: &[ItemSpec]) -> Value {
+    Value::Array(w.iter().map(|i| i.to_json()).collect())
+}
+
+fn uuid_of(u: i32) -> Uuid {
+    let mut b = [0u8; 16];
+    for k in 0..4 {
+        b[4 * k..4 * k + 4].copy_from_slice(&(u * (k as i32 + 1)).to_be_bytes());
+    }
+    Uuid::from_bytes(b)
+}
+
+fn type_id(ty: i32) -> TypeId {
+    if ty > 0 {
+        TypeId::Ordinal(ty as u16)
+    } else {
+        TypeId::Uuid(uuid_of(-ty))
+    }
+}
+
+fn user_ty(t: TypeId) -> i32 {
+    match t {
+        TypeId::Ordinal(o) => o as i32,
+        TypeId::Uuid(u) => {
+            let b = u.as_bytes();
+            -i32::from_be_bytes([b[0], b[1], b[2], b[3]])
+        }
+    }
+}
+
+#[derive(Clone, Default)]
+pub struct Config {
+    pub agreed: HashMap<u16, u32>,
+    /// user type -> repetition factor, for projecting real data back
+    pub reps: HashMap<i32, usize>,
+}
+
+impl Config {
+    fn learn(&mut self, w: &[ItemSpec]) {
+        for i in w {
+            self.reps.insert(i.ty, i.rep);
+        }
+    }
+    fn agreed_json(&self) -> Value {
+        let mut v: Vec<(u16, u32)> = self.agreed.iter().map(|(a, b)| (*a, *b)).collect();
+        v.sort();
+        Value::Array(v.into_iter().map(|(ty, size)| json!({"ty": ty, "size": size})).collect())
+    }
+    fn set_agreed(&mut self, v: &Value) {
+        self.agreed.clear();
+        if let Some(a) = v.as_array() {
+            for x in a {
+                self.agreed.insert(x["ty"].as_u64().unwrap() as u16, x["size"].as_u64().unwrap() as u32);
+            }
+        }
+    }
+    /// real data -> item value of the spec (each integer repeated `rep` times)
+    fn compress(&self, ty: i32, data: &[i32]) -> (usize, Vec<i32>) {
+        let rep = *self.reps.get(&ty).unwrap_or(&1);
+        if rep > 1 && data.len() % rep == 0 && data.chunks(rep).all(|c| c.iter().all(|&x| x == c[0])) {
+            (rep, data.chunks(rep).map(|c| c[0]).collect())
+        } else {
+            (1, data.to_vec())
+        }
+    }
+}
+
+#[derive(Clone, Debug)]
+pub struct Wire {
+    pub k: &'static str,
+    pub t: i32,
+    pub dt: i32,
+    pub n: i32,
+    pub i: i32,
+    pub crc: i32,
+    pub lo: usize,
+    pub hi: usize,
+    pub data: Vec<u8>,
+}
+
+impl Wire {
+    fn fields(&self) -> Value {
+        json!({"k": self.k, "t": self.t, "dt": self.dt, "n": self.n, "i": self.i, "crc": self.crc, "lo": self.lo, "hi": self.hi})
+    }
+}
+
+#[derive(Clone)]
+pub struct Sys {
+    pub sender: Storage,
+    pub tick: i32,
+    pub manager: Manager,
+    pub msgs: Vec<Rc<Wire>>,
+    pub acks: Vec<i32>,
+}
+
+impl Sys {
+    pub fn new() -> Sys {
+        Sys {
+            sender: Storage::new(),
+            tick: 0,
+            manager: Manager::new(),
+            msgs: Vec::new(),
+            acks: Vec::new(),
+        }
+    }
+}
+
+fn panic_out(p: String) -> Value {
+    json!({"r": "panic", "e": format!("{} @{}", p, vh_common::last_panic_location())})
+}
+
+/// new_builder -> add_item* -> finish -> add_snap -> Delta::write -> delta_chunks
+pub fn do_tick(sys: &mut Sys, cfg: &Config, world: &[ItemSpec]) -> Value {
+    sys.tick += 1;
+    let tick = sys.tick;
+    let sender = &mut sys.sender;
+    let res = vh_common::guarded(CALL_MS, || -> Result<(Vec<Wire>, i32, usize, i32), String> {
+        let mut b = sender.new_builder();
+        for it in world {
+            b.add_item(type_id(it.ty), it.id, &it.real()).map_err(|e| format!("builder:{:?}", e))?;
+        }
+        let snap = b.finish();
+        let crc = snap.crc();
+        let dt = sender.delta_tick().unwrap_or(-1);
+        let delta = sender.add_snap(tick, snap);
+        let mut buf: Vec<u8> = Vec::with_capacity(512 * 1024);
+        let agreed = &cfg.agreed;
+        with_packer(&mut buf, |p| delta.write(|ty| agreed.get(&ty).copied(), p).map(|_| ())).map_err(|_| "delta-write:capacity".to_string())?;
+        let mut out = Vec::new();
+        let base = buf.as_ptr() as usize;
+        for m in delta_chunks(tick, dt, &buf, crc) {
+            out.push(match m {
+                msg::SnapMsg::SnapEmpty(e) => Wire { k: "empty", t: e.tick, dt: e.delta_tick, n: 0, i: 0, crc: 0, lo: 0, hi: 0, data: vec![] },
+                msg::SnapMsg::SnapSingle(s) => Wire { k: "single", t: s.tick, dt: s.delta_tick, n: 1, i: 0, crc: s.crc, lo: 0, hi: s.data.len(), data: s.data.to_vec() },
+                msg::SnapMsg::Snap(s) => {
+                    let lo = (s.data.as_ptr() as usize).wrapping_sub(base);
+                    Wire { k: "part", t: s.tick, dt: s.delta_tick, n: s.num_parts, i: s.part, crc: s.crc, lo, hi: lo + s.data.len(), data: s.data.to_vec() }
+                }
+            });
+            if out.len() > 10_000 {
+                panic!("delta_chunks does not terminate");
+            }
+        }
+        Ok((out, crc, buf.len(), dt))
+    });
+    match res {
+        Err(p) => panic_out(p),
+        Ok(Err(e)) => json!({"r": e, "e": ""}),
+        Ok(Ok((ms, crc, len, dt))) => {
+            let f: Vec<Value> = ms.iter().map(|m| m.fields()).collect();
+            let n = ms.len();
+            for m in ms {
+                sys.msgs.push(Rc::new(m));
+            }
+            json!({"r": "ok", "n": n, "crc": crc, "len": len, "dt": dt, "msgs": f})
+        }
+    }
+}
+
+fn project_snap(cfg: &Config, snap: &Snap) -> (Value, bool) {
+    let mut items: Vec<(i32, u16, usize, Vec<i32>)> = Vec::new();
+    let mut lk = true;
+    for it in snap.items() {
+        let ty = user_ty(it.type_id);
+        let (rep, d) = cfg.compress(ty, it.data);
+        items.push((ty, it.id, rep, d));
+        // the same item through the keyed lookup of the public API
+        if snap.item(it.type_id, it.id) != Some(it.data) {
+            lk = false;
+        }
+    }
+    items.sort();
+    (Value::Array(items.into_iter().map(|(ty, id, rep, d)| json!({"ty": ty, "id": id, "rep": rep, "d": d})).collect()), lk)
+}
+
+pub fn do_deliver_msg(sys: &mut Sys, cfg: &Config, i: usize, keep: bool) -> Value {
+    if i == 0 || i > sys.msgs.len() {
+        return json!({"r": "skip"});
+    }
+    let m = if keep { sys.msgs[i - 1].clone() } else { sys.msgs.remove(i - 1) };
+    let manager = &mut sys.manager;
+    let agreed = &cfg.agreed;
+    let res = vh_common::guarded(CALL_MS, || {
+        let mut w: Vec<manager::Warning> = Vec::new();
+        let os = |ty: u16| agreed.get(&ty).copied();
+        let r = match m.k {
+            "empty" => manager.snap_empty(&mut w, os, msg::SnapEmpty { tick: m.t, delta_tick: m.dt }),
+            "single" => manager.snap_single(&mut w, os, msg::SnapSingle { tick: m.t, delta_tick: m.dt, crc: m.crc, data: &m.data }),
+            _ => manager.snap(&mut w, os, msg::Snap { tick: m.t, delta_tick: m.dt, num_parts: m.n, part: m.i, crc: m.crc, data: &m.data }),
+        };
+        let mut o = match r {
+            Ok(Some(snap)) => {
+                let (view, lk) = project_snap(cfg, snap);
+                json!({"r": "ok", "e": "", "view": view, "lk": lk})
+            }
+            Ok(None) => json!({"r": "none", "e": "", "view": [], "lk": true}),
+            Err(e) => json!({"r": "err", "e": format!("{:?}", e), "view": [], "lk": true}),
+        };
+        let mut names: Vec<String> = w.iter().map(|x| format!("{:?}", x)).collect();
+        names.sort();
+        names.dedup();
+        o["w"] = json!(names);
+        o
+    });
+    let mut o = match res {
+        Ok(o) => o,
+        Err(p) => {
+            let mut o = panic_out(p);
+            o["view"] = json!([]);
+            o["lk"] = json!(true);
+            o["w"] = json!([]);
+            o
+        }
+    };
+    o["ack"] = json!(vh_common::catch(|| sys.manager.ack_tick().unwrap_or(-1)).unwrap_or(-2));
+    o["t"] = json!(m.t);
+    o
+}
+
+pub fn do_client_ack(sys: &mut Sys) -> Value {
+    let a = sys.manager.ack_tick().unwrap_or(-1);
+    sys.acks.push(a);
+    json!({"r": "ok", "ack": a})
+}
+
+pub fn do_deliver_ack(sys: &mut Sys, i: usize, keep: bool) -> Value {
+    if i == 0 || i > sys.acks.len() {
+        return json!({"r": "skip"});
+    }
+    let a = if keep { sys.acks[i - 1] } else { sys.acks.remove(i - 1) };
+    let sender = &mut sys.sender;
+    let res = vh_common::guarded(CALL_MS, || {
+        let mut w: Vec<storage::WeirdNegativeDeltaTick> = Vec::new();
+        match sender.set_delta_tick(&mut w, a) {
+            Ok(()) => "ok".to_string(),
+            Err(e) => format!("{:?}", e),
+        }
+    });
+    match res {
+        Ok(r) => json!({"r": r, "dt": sys.sender.delta_tick().unwrap_or(-1), "a": a}),
+        Err(p) => panic_out(p),
+    }
+}
+
+/// Executes one step of a schedule; returns the trace event.
+pub fn do_step(sys: &mut Sys, cfg: &mut Config, step: &Value, worlds: &[Vec<ItemSpec>]) -> Value {
+    let a = step["a"].as_str().unwrap_or("");
+    let i = step["i"].as_u64().unwrap_or(0) as usize;
+    let keep = step["keep"].as_bool().unwrap_or(false);
+    match a {
+        "tick" => {
+            let world: Vec<ItemSpec> = if step.get("world").map(|w| w.is_array()).unwrap_or(false) {
+                world_from_json(&step["world"])
+            } else {
+                worlds[step["w"].as_u64().unwrap() as usize - 1].clone()
+            };
+            cfg.learn(&world);
+            let o = do_tick(sys, cfg, &world);
+            json!({"e": "tick", "i": 0, "keep": false, "world": world_to_json(&world), "out": o})
+        }
+        "deliver_msg" => {
+            let o = do_deliver_msg(sys, cfg, i, keep);
+            json!({"e": "deliver_msg", "i": i, "keep": keep, "out": o})
+        }
+        "client_ack" => json!({"e": "client_ack", "i": 0, "keep": false, "out": do_client_ack(sys)}),
+        "deliver_ack" => {
+            let o = do_deliver_ack(sys, i, keep);
+            json!({"e": "deliver_ack", "i": i, "keep": keep, "out": o})
+        }
+        "drop_msg" => {
+            if i >= 1 && i <= sys.msgs.len() {
+                sys.msgs.remove(i - 1);
+            }
+            json!({"e": "drop_msg", "i": i, "keep": false, "out": {"r": "ok"}})
+        }
+        "drop_ack" => {
+            if i >= 1 && i <= sys.acks.len() {
+                sys.acks.remove(i - 1);
+            }
+            json!({"e": "drop_ack", "i": i, "keep": false, "out": {"r": "ok"}})
+        }
+        _ => json!({"e": "skip", "i": 0, "keep": false, "out": {"r": "ok"}}),
+    }
+}
+
+pub fn execute_schedule(run_no: usize, sched: &Value, out: &mut dyn Write) {
+    let mut cfg = Config::default();
+    cfg.set_agreed(&sched["agreed"]);
+    let worlds: Vec<Vec<ItemSpec>> = sched.get("worlds").and_then(|w| w.as_array()).map(|a| a.iter().map(world_from_json).collect()).unwrap_or_default();
+    for w in &worlds {
+        cfg.learn(w);
+    }
+    // learn the repetition factors of all worlds of the schedule before projecting anything
+    for s in sched["steps"].as_array().unwrap() {
+        if s.get("world").map(|w| w.is_array()).unwrap_or(false) {
+            cfg.learn(&world_from_json(&s["world"]));
+        }
+    }
+    writeln!(out, "{}", json!({"e": "reset", "run": run_no, "agreed": cfg.agreed_json()})).unwrap();
+    let mut sys = Sys::new();
+    vh_common::set_case(&vh_common::canon(sched));
+    for s in sched["steps"].as_array().unwrap() {
+        let ev = do_step(&mut sys, &mut cfg, s, &worlds);
+        writeln!(out, "{}", ev).unwrap();
+    }
+}
+
+/// `sync-run <schedules.json> [out.ndjson]`
+pub fn cmd_run(args: &[String]) -> i32 {
+    let text = std::fs::read_to_string(&args[0]).expect("schedule file");
+    let v: Value = serde_json::from_str(&text).expect("schedule json");
+    let mut out: Box<dyn Write> = match args.get(1) {
+        Some(p) => Box::new(std::io::BufWriter::new(std::fs::File::create(p).unwrap())),
+        None => Box::new(std::io::BufWriter::new(std::io::stdout())),
+    };
+    for (k, s) in v["runs"].as_array().unwrap().iter().enumerate() {
+        execute_schedule(k + 1, s, &mut *out);
+    }
+    out.flush().unwrap();
+    0
+}
+
+// ------------------------------------------------------------------ direction A
+
+struct Node {
+    parent: u32,
+    step: Option<Rc<Value>>,
+    sys: Option<Sys>,
+}
+
+fn norm(v: &Value) -> Value {
+    // order-insensitive parts: view items, warning names
+    let mut o = v.clone();
+    if let Some(a) = o.get_mut("view").and_then(|x| x.as_array_mut()) {
+        a.sort_by_key(|it| (it["ty"].as_i64().unwrap_or(0), it["id"].as_i64().unwrap_or(0)));
+    }
+    if let Some(a) = o.get_mut("w").and_then(|x| x.as_array_mut()) {
+        a.sort_by(|x, y| x.as_str().unwrap_or("").cmp(y.as_str().unwrap_or("")));
+    }
+    if let Some(m) = o.as_object_mut() {
+        m.remove("a");
+    }
+    o
+}
+
+pub fn cmd_replay(_args: &[String]) -> i32 {
+    let stdin = std::io::stdin();
+    let stdout = std::io::stdout();
+    let mut out = std::io::BufWriter::new(stdout.lock());
+    let mut cfg = Config::default();
+    let mut worlds: Vec<Vec<ItemSpec>> = Vec::new();
+    let mut worlds_json = Value::Null;
+    let mut nodes: Vec<Node> = Vec::new();
+    let mut queue: std::collections::VecDeque<u32> = std::collections::VecDeque::new();
+    let mut pending: Option<(u32, Value, Sys)> = None;
+    let mut cur: Option<u32> = None;
+    let mut n_align = 0u64;
+    let (mut n_trans, mut n_mism, mut n_panic, mut n_ok, mut n_err) = (0u64, 0u64, 0u64, 0u64, 0u64);
+    let mut multi = 0u64;
+    let mut printed: HashMap<String, u32> = HashMap::new();
+    let mut tlc_tail: Vec<String> = Vec::new();
+    let mut sample: Vec<Value> = Vec::new();
+
+    let schedule = |nodes: &Vec<Node>, from: u32, last: &Value, cfg: &Config, worlds_json: &Value| -> Value {
+        let mut steps = Vec::new();
+        let mut n = from;
+        loop {
+            let node = &nodes[n as usize];
+            match &node.step {
+                Some(s) => steps.push((**s).clone()),
+                None => break,
+            }
+            n = node.parent;
+        }
+        steps.reverse();
+        steps.push(last.clone());
+        json!({"agreed": cfg.agreed_json(), "worlds": worlds_json, "steps": steps})
+    };
+
+    for line in stdin.lock().lines() {
+        let line = match line {
+            Ok(l) => l,
+            Err(_) => break,
+        };
+        let parts = match vh_common::parse_tlc_tuple(&line) {
+            Some(p) if !p.is_empty() => p,
+            _ => {
+                if !line.starts_with("Parsing file") && !line.starts_with("Semantic processing") && !line.starts_with("Linting") {
+                    tlc_tail.push(line);
+                    if tlc_tail.len() > 60 {
+                        tlc_tail.remove(0);
+                    }
+                }
+                continue;
+            }
+        };
+        match parts[0].as_str() {
+            "C" => {
+                let v: Value = serde_json::from_str(&parts[1]).unwrap();
+                worlds = v["worlds"].as_array().unwrap().iter().map(world_from_json).collect();
+                worlds_json = v["worlds"].clone();
+                for w in &worlds {
+                    cfg.learn(w);
+                }
+                cfg.set_agreed(&v["agreed"]);
+            }
+            "N" => {
+                // the target of the preceding transition (or the initial state) is a new state
+                let idx = nodes.len() as u32;
+                match pending.take() {
+                    Some((src, step, sys)) => nodes.push(Node { parent: src, step: Some(Rc::new(step)), sys: Some(sys) }),
+                    None if nodes.is_empty() => nodes.push(Node { parent: 0, step: None, sys: Some(Sys::new()) }),
+                    None => {
+                        eprintln!("sync-replay: N without a preceding transition");
+                        return 3;
+                    }
+                }
+                queue.push_back(idx);
+            }
+            "S" => {
+                pending = None;
+                if let Some(c) = cur {
+                    nodes[c as usize].sys = None;
+                }
+                cur = queue.pop_front();
+                let c = match cur {
+                    Some(c) => c,
+                    None => {
+                        eprintln!("sync-replay: more source states than discovered states");
+                        return 3;
+                    }
+                };
+                // cross-check of the alignment with a few observables of the real system
+                if let Some(sys) = &nodes[c as usize].sys {
+                    let obs = vec![sys.tick.to_string(), sys.msgs.len().to_string(), sys.acks.len().to_string(),
+                                   sys.manager.ack_tick().unwrap_or(-1).to_string()];
+                    if parts[1..] != obs[..] {
+                        n_align += 1;
+                    }
+                }
+            }
+            "T" => {
+                let src = cur.expect("S before T");
+                let act: Value = serde_json::from_str(&parts[1]).unwrap();
+                let exp: Value = serde_json::from_str(&parts[2]).unwrap();
+                let mut sys = match &nodes[src as usize].sys {
+                    Some(s) => s.clone(),
+                    None => {
+                        eprintln!("sync-replay: source system already released");
+                        return 3;
+                    }
+                };
+                let a = act["a"].as_str().unwrap_or("").to_string();
+                let step = json!({"a": a, "w": act["w"], "i": act["i"], "keep": act["keep"]});
+                if n_trans % 32 == 0 {
+                    vh_common::set_case(&vh_common::canon(&schedule(&nodes, src, &step, &cfg, &worlds_json)));
+                }
+                let ev = do_step(&mut sys, &mut cfg, &step, &worlds);
+                let real = ev["out"].clone();
+                n_trans += 1;
+                match real["r"].as_str().unwrap_or("") {
+                    "panic" => n_panic += 1,
+                    "ok" if a == "deliver_msg" => n_ok += 1,
+                    "err" => n_err += 1,
+                    _ => {}
+                }
+                if a == "tick" && real["n"].as_u64().unwrap_or(0) > 1 {
+                    multi += 1;
+                }
+                let mut realc = real.clone();
+                if a == "deliver_ack" {
+                    if let Some(m) = realc.as_object_mut() {
+                        m.remove("a");
+                    }
+                }
+                let e = vh_common::canon(&norm(&exp));
+                let g = vh_common::canon(&norm(&realc));
+                if e != g || real["r"] == "panic" {
+                    n_mism += 1;
+                    let ne = norm(&exp);
+                    let ng = norm(&realc);
+                    let mut diff: Vec<String> = Vec::new();
+                    let mut keys: Vec<String> = ne.as_object().map(|m| m.keys().cloned().collect()).unwrap_or_default();
+                    for k in ng.as_object().map(|m| m.keys().cloned().collect::<Vec<_>>()).unwrap_or_default() {
+                        if !keys.contains(&k) {
+                            keys.push(k);
+                        }
+                    }
+                    keys.sort();
+                    for f in keys {
+                        if ne.get(&f) != ng.get(&f) {
+                            diff.push(f);
+                        }
+                    }
+                    let sig = format!("{}:{}->{}:{}:{}", a, exp["r"].as_str().unwrap_or(""), real["r"].as_str().unwrap_or(""),
+                        real["e"].as_str().unwrap_or("").chars().take(60).collect::<String>(), diff.join("+"));
+                    let c = printed.entry(sig.clone()).or_insert(0);
+                    *c += 1;
+                    if *c <= 3 {
+                        writeln!(out, "{}", json!({"kind": "mismatch", "sig": sig, "expected": exp, "real": real,
+                            "schedule": schedule(&nodes, src, &step, &cfg, &worlds_json)})).unwrap();
+                    }
+                } else if sample.len() < 3 && a == "deliver_msg" && real["r"] == "ok" && real["view"].as_array().map(|v| v.len() > 1).unwrap_or(false) {
+                    sample.push(json!({"steps": schedule(&nodes, src, &step, &cfg, &worlds_json)["steps"], "real_out": real}));
+                }
+                pending = Some((src, step, sys));
+            }
+            _ => {}
+        }
+    }
+    let sigs: Vec<Value> = printed.iter().map(|(k, v)| json!({"sig": k, "count": v})).collect();
+    writeln!(out, "{}", json!({"kind": "summary", "states": nodes.len(), "transitions": n_trans, "mismatches": n_mism,
+        "panics": n_panic, "misaligned_sources": n_align, "accepted": n_ok, "rejected": n_err, "multi_part_ticks": multi, "signatures": sigs,
+        "sample": sample, "tlc_tail": tlc_tail})).unwrap();
+    out.flush().unwrap();
+    0
+}
+
+// ------------------------------------------------------------------ direction B
+
+fn random_world(rng: &mut StdRng, prev: &[ItemSpec], big_rep: usize) -> Vec<ItemSpec> {
+    // types: 1 (pre-agreed size 2), 2 (size 1), 5 (size 3), 3 (big, multi-part), UUID -1/-2 (size 1), UUID -3 (big)
+    let mut w: Vec<ItemSpec> = Vec::new();
+    for it in prev {
+        match rng.gen_range(0..10) {
+            0 | 1 => {} // disappears
+            2 | 3 | 4 => {
+                let mut it = it.clone();
+                for x in it.d.iter_mut() {
+                    *x = rng.gen_range(0..if it.rep > 1 { 8000 } else { 100 });
+                }
+                w.push(it);
+            }
+            _ => w.push(it.clone()),
+        }
+    }
+    let n_new = rng.gen_range(0..3);
+    for _ in 0..n_new {
+        let (ty, len, rep): (i32, usize, usize) = match rng.gen_range(0..12) {
+            0 | 1 => (1, 2, 1),
+            2 | 3 => (2, 1, 1),
+            4 => (5, 3, 1),
+            5 => (3, 1, big_rep),
+            6 | 7 => (-1, 1, 1),
+            8 | 9 => (-2, 1, 1),
+            10 => (-3, 1, big_rep),
+            _ => (2, 1, 1),
+        };
+        let id: u16 = rng.gen_range(0..4);
+        if w.iter().any(|i| i.ty == ty && i.id == id) {
+            continue;
+        }
+        // at most two big items so that the snapshot stays below 64 KiB and the delta below 32 parts
+        if rep > 1 && w.iter().filter(|i| i.rep > 1).count() >= 2 {
+            continue;
+        }
+        let d: Vec<i32> = (0..len).map(|_| rng.gen_range(0..if rep > 1 { 8000 } else { 100 })).collect();
+        w.push(ItemSpec { ty, id, rep, d });
+    }
+    sort_world(&mut w);
+    w
+}
+
+/// `sync-drive <seed> <runs> <ticks> <out.ndjson>`
+pub fn cmd_drive(args: &[String]) -> i32 {
+    let seed: u64 = args[0].parse().unwrap();
+    let runs: usize = args[1].parse().unwrap();
+    let ticks: usize = args[2].parse().unwrap();
+    let mut out = std::io::BufWriter::new(std::fs::File::create(&args[3]).unwrap());
+    let mut rng = StdRng::seed_from_u64(seed);
+    let (mut events, mut accepted, mut rejected, mut multi, mut maxparts, mut max_stored) = (0u64, 0u64, 0u64, 0u64, 0u64, 0usize);
+    let mut unknown_ack = 0u64;
+    for run_no in 1..=runs {
+        let mut cfg = Config::default();
+        cfg.agreed.insert(1, 2);
+        let big_rep = [1000usize, 1500, 2600, 5000, 7000][rng.gen_range(0..5)];
+        for (ty, rep) in [(1, 1), (2, 1), (5, 1), (3, big_rep), (-1, 1), (-2, 1), (-3, big_rep)] {
+            cfg.reps.insert(ty, rep);
+        }
+        writeln!(out, "{}", json!({"e": "reset", "run": run_no, "agreed": cfg.agreed_json()})).unwrap();
+        let mut sys = Sys::new();
+        let mut world: Vec<ItemSpec> = Vec::new();
+        // per-run fault profile
+        let p_loss = [0.0, 0.05, 0.2, 0.4][rng.gen_range(0..4)];
+        let p_dup = [0.0, 0.05, 0.2][rng.gen_range(0..3)];
+        let p_reorder = [0.0, 0.2, 0.6][rng.gen_range(0..3)];
+        let p_ack = [0.1, 0.5, 1.0][rng.gen_range(0..3)];
+        // a phase without any acknowledgement reaching the sender: the receiver's cap (100) evicts the base
+        let blackout = if rng.gen_range(0..3) == 0 && ticks > 130 { Some(rng.gen_range(5..ticks - 120)) } else { None };
+        let worlds: Vec<Vec<ItemSpec>> = Vec::new();
+        let mut stored_estimate = 0usize;
+        let emit = |ev: Value, out: &mut std::io::BufWriter<std::fs::File>| {
+            writeln!(out, "{}", ev).unwrap();
+        };
+        for tk in 0..ticks {
+            vh_common::set_case(&format!("{{\"seed\":{},\"run\":{},\"tick\":{}}}", seed, run_no, tk));
+            world = random_world(&mut rng, &world, big_rep);
+            let ev = do_step(&mut sys, &mut cfg, &json!({"a": "tick", "world": world_to_json(&world)}), &worlds);
+            let n = ev["out"]["n"].as_u64().unwrap_or(0);
+            if n > 1 {
+                multi += 1;
+            }
+            maxparts = maxparts.max(n);
+            events += 1;
+            emit(ev, &mut out);
+            let in_blackout = blackout.map(|b| tk >= b && tk < b + 115).unwrap_or(false);
+            // network activity until the queues are short
+            let mut guard = 0;
+            while (sys.msgs.len() > 3 || (!sys.msgs.is_empty() && rng.gen_bool(0.8))) && guard < 200 {
+                guard += 1;
+                let i = if rng.gen_bool(p_reorder) { rng.gen_range(1..=sys.msgs.len()) } else { 1 };
+                let step = if !in_blackout && rng.gen_bool(p_loss) {
+                    json!({"a": "drop_msg", "i": i})
+                } else {
+                    json!({"a": "deliver_msg", "i": i, "keep": rng.gen_bool(p_dup)})
+                };
+                let ev = do_step(&mut sys, &mut cfg, &step, &worlds);
+                if ev["e"] == "deliver_msg" {
+                    match ev["out"]["r"].as_str().unwrap_or("") {
+                        "ok" => {
+                            accepted += 1;
+                            stored_estimate += 1;
+                        }
+                        "err" => {
+                            rejected += 1;
+                            if ev["out"]["e"] == "Storage(UnknownSnap)" {
+                                stored_estimate = 0;
+                            }
+                        }
+                        _ => {}
+                    }
+                    max_stored = max_stored.max(stored_estimate);
+                }
+                events += 1;
+                emit(ev, &mut out);
+            }
+            if rng.gen_bool(p_ack) {
+                let ev = do_step(&mut sys, &mut cfg, &json!({"a": "client_ack"}), &worlds);
+                events += 1;
+                emit(ev, &mut out);
+            }
+            while !sys.acks.is_empty() && (sys.acks.len() > 3 || rng.gen_bool(0.7)) {
+                let i = if rng.gen_bool(p_reorder) { rng.gen_range(1..=sys.acks.len()) } else { 1 };
+                let step = if in_blackout || rng.gen_bool(p_loss) {
+                    json!({"a": "drop_ack", "i": i})
+                } else {
+                    json!({"a": "deliver_ack", "i": i, "keep": rng.gen_bool(p_dup)})
+                };
+                let ev = do_step(&mut sys, &mut cfg, &step, &worlds);
+                if ev["out"]["r"] == "UnknownSnap" {
+                    unknown_ack += 1;
+                } else if ev["e"] == "deliver_ack" {
+                    // the receiver drops what is older than the new base with the next accepted delta
+                    stored_estimate = stored_estimate.min(110);
+                }
+                events += 1;
+                emit(ev, &mut out);
+            }
+        }
+    }
+    out.flush().unwrap();
+    println!("{}", json!({"kind": "summary", "runs": runs, "ticks_per_run": ticks, "events": events, "accepted": accepted,
+        "rejected": rejected, "multi_part_ticks": multi, "max_parts": maxparts, "acks_naming_dropped_snapshots": unknown_ack,
+        "max_consecutive_accepts_without_rebase": max_stored}));
+    0
+}
